@@ -152,6 +152,13 @@ func HLayoutTrivia() {
 	variant := doc[:site.pos] + string(t) + doc[site.pos:]
 	cA, jeA := vBuildProject(doc, vLayoutFiles)
 	cB, jeB := vBuildProject(variant, vLayoutFiles)
+	if vParam("debug", 0) == 1 {
+		for _, je := range []*jerr.JApiError{jeA, jeB} {
+			if je != nil {
+				vObserve("err", je.Msg, int(je.Index), je.File.Name())
+			}
+		}
+	}
 	vAssert((jeA == nil) == (jeB == nil), "c08-trivia-changes-accept-reject")
 	if jeA != nil {
 		vAssert(vMsgClass(jeA) == vMsgClass(jeB), "c08-trivia-changes-error-class")
